@@ -57,6 +57,14 @@ GetLength(c, p) ==
                             !.kind = IF Len(p) >= 3 THEN GetLengthOf(p).kind ELSE "err",
                             !.hi = IF Len(p) >= 3 THEN GetLengthOf(p).len ELSE 0]
 
+(* the two response encoders that report the EID: no effect on the context, output built from the response half *)
+EncArgs(name) == IF name = "set_endpoint_id" THEN [dst |-> 17, cc |-> 0, assignment |-> 0, allocation |-> 0]
+                                             ELSE [dst |-> 17, cc |-> 0, endpoint_type |-> 0, id_type |-> 0, fairness |-> 0]
+EncodeResp(c, name) ==
+    /\ UNCHANGED << ctx, hist >>
+    /\ out' = [NoOut EXCEPT !.op = "enc_resp", !.c = c, !.arg = name, !.kind = "ok",
+                            !.resp = Frame(17, ctx[c].addr, MT_CONTROL, RespRest(name, EncArgs(name), ctx[c].eidResp))]
+
 SetEidReq(c, e) == /\ ctx' = [ctx EXCEPT ![c].eidReq = e] /\ hist' = [hist EXCEPT ![c].req = e]
                    /\ out' = [NoOut EXCEPT !.op = "set_eid_req", !.c = c, !.arg = e]
 SetEidResp(c, e) == /\ ctx' = [ctx EXCEPT ![c].eidResp = e] /\ hist' = [hist EXCEPT ![c].resp = e]
@@ -66,6 +74,7 @@ SetUuid(c, u) == /\ ctx' = [ctx EXCEPT ![c].uuid = u] /\ hist' = [hist EXCEPT ![
 
 Next == \E c \in CtxIds :
           \/ \E p \in Packets : Process(c, p) \/ Decode(c, p) \/ GetLength(c, p)
+          \/ \E n \in {"set_endpoint_id", "get_endpoint_id"} : EncodeResp(c, n)
           \/ \E e \in EidVals : SetEidReq(c, e) \/ SetEidResp(c, e)
           \/ \E u \in UuidVals : SetUuid(c, u)
 
@@ -92,6 +101,11 @@ InvC13Resp ==
             out.has /\ R[12] = 0 /\ Bits(R[13], 5, 4) = 0 /\ R[14] = out.p[13] /\ R[14] = ctx[out.c].eidResp
       /\ (Cmd(out.p) = 1 /\ out.p[12] = 3) => out.has /\ R[12] = CC_INVALID_DATA
       /\ Cmd(out.p) = 2 => out.has /\ R[12] = 0 /\ R[13] = hist[out.c].resp
+
+(* C07 / C13: the response encoders report the EID of the response half, whatever the history *)
+InvEncEid == out.op = "enc_resp" =>
+               /\ PecGood(out.resp)
+               /\ (IF out.arg = "set_endpoint_id" THEN out.resp[14] ELSE out.resp[13]) = hist[out.c].resp
 
 (* C02: input with a bad PEC is never accepted, answered or acted upon *)
 InvC02 == (out.op \in {"process", "decode"} /\ ~PecGood(out.p)) => (out.kind # "ok" /\ ~out.has)
